@@ -159,4 +159,5 @@ type SqlConf struct {
 	Precision   int    `json:"precision,omitempty"`
 	CoerceNames []BS   `json:"coercenames,omitempty"`
 	CoerceKinds []int  `json:"coercekinds,omitempty"`
+	PresetLast  bool   `json:"presetlast,omitempty"` // the dialect preset is the LAST option given (it only sets escape character and placeholder style)
 }
